@@ -42,9 +42,17 @@ extern crate serde;
 #[cfg(feature = "async")]
 #[cfg_attr(docsrs, doc(cfg(feature = "async")))]
 pub(crate) mod axync {
+    #[cfg(not(transparencies_stretto_verif))]
     pub(crate) use async_channel::{bounded, unbounded, Receiver, RecvError, Sender};
+    #[cfg(transparencies_stretto_verif)]
+    pub(crate) use async_channel::RecvError;
+    #[cfg(transparencies_stretto_verif)]
+    pub(crate) use stretto_sim_rt::axync::{bounded, unbounded, Receiver, Sender};
     pub(crate) use futures::select;
+    #[cfg(not(transparencies_stretto_verif))]
     pub(crate) type WaitGroup = wg::AsyncWaitGroup;
+    #[cfg(transparencies_stretto_verif)]
+    pub(crate) type WaitGroup = stretto_sim_rt::axync::WaitGroup;
     pub(crate) fn stop_channel() -> (Sender<()>, Receiver<()>) {
         bounded(1)
     }
